@@ -181,10 +181,14 @@ def run(ctx):
             for m in re.finditer(r'<<"ROBUST", (\d+), (\d+), (\d+)>>', r3.out):
                 robust += int(m.group(2))
                 hit += int(m.group(3))
-            for m in re.finditer(r'<<"BAD", \{([^}]*)\}>>', r3.out):
-                for j in m.group(1).split(","):
-                    c = part[int(j) - 1]
-                    ctx.violation("float_case", {"kind": "float", "case": c}, expected=1 - c["v"], observed=c["v"])
+            groups_seen = len(re.findall(r'<<"ROBUST", ', r3.out))
+            if groups_seen != 64:
+                ctx.machinery("SegBoxTrace reported %d of 64 groups" % groups_seen)
+            for jb in r3.json:
+                if jb.get("k") == "BAD":
+                    for j in jb["s"]:
+                        c = part[int(j) - 1]
+                        ctx.violation("float_case", {"kind": "float", "case": c}, expected=1 - c["v"], observed=c["v"])
     if robust < n_float // 3 or hit < n_float // 50:
         ctx.machinery("float cases degenerate: %d robust, %d of them hits out of %d" % (robust, hit, n_float))
     ctx.sample({"box_set": sets[len(singles) + 1], "segment": [list(PTS[10]), list(PTS[300])],
